@@ -162,6 +162,12 @@ pub fn subtype_inputs(_seed: u64, open: &[String]) -> impl Iterator<Item = Value
 
 /// C12: hostile but parseable documents through Schema::execute: any answer, never a panic (a panic is reported by the harness as a failed run)
 pub fn hostile(args: &Value) -> Outcome {
+    if let Some(n) = args["limits"].as_u64() {
+        // every configured limit switched on: the pre-execution checks must themselves survive hostile documents (cyclic fragments ...)
+        let schema = Schema::build(Query, EmptyMutation, EmptySubscription).limit_directives(n as usize).limit_depth(n as usize + 5).limit_complexity(100 * n as usize).limit_recursive_depth(16 + n as usize).finish();
+        let resp = schema.execute(args["query"].as_str().unwrap()).now_or_never().unwrap();
+        return Outcome { holds: true, observed: format!("errors={:?}", resp.errors.iter().map(|e| e.message.clone()).collect::<Vec<_>>()), expected: "an answer (data or errors), no panic / stack overflow".into() };
+    }
     let o = validate(&json!({"query": args["query"], "variables": args["variables"], "valid": false}));
     Outcome { holds: true, observed: o.observed, expected: "an answer (data or errors), no panic".into() }
 }
@@ -172,6 +178,10 @@ pub fn hostile_inputs(_seed: u64) -> impl Iterator<Item = Value> {
         json!({"query": "query($v: [Inp!] = [{a: 1}, 5, null]) { value }"}), json!({"query": "{ inp(i: {a: 1, b: {c: [[[]]]}}) }"}), json!({"query": "{ add(a: 99999999999999999999) }"}), json!({"query": "{ add(a: 1e400) }"}),
         json!({"query": "query($a: Int!) { add(a: $a) }", "variables": {"a": {"x": [1, {"y": null}]}}}), json!({"query": "query($a: Int!) { add(a: $a) }", "variables": {"a": 1e308}}), json!({"query": "query($i: Inp!) { inp(i: $i) }", "variables": {"i": [[{"a": 1}]]}}),
         json!({"query": "{ value @skip(if: [true]) }"}), json!({"query": "{ value @include(if: $nope) }"}), json!({"query": "{ ...A } fragment A on Query { ...B } fragment B on Query { ...A value }"}),
-        json!({"query": "query A { value } query B { value }"}), json!({"query": "{ __type(name: 5) { name } }"}), json!({"query": "{ __type(name: \"Nope\") { fields { name } } __schema { types { name } } }"}),
+        json!({"query": "query A { value } query B { value }"}),
+        json!({"limits": 3, "query": "fragment A on Query { value ...A } { ...A }"}),
+        json!({"limits": 3, "query": "{ ...A } fragment A on Query { ...B } fragment B on Query { ...C } fragment C on Query { ...A value @skip(if: false) }"}),
+        json!({"limits": 1, "query": "{ pet { ...P } } fragment P on Pet { name ... on Pet { ...P } }"}),
+        json!({"limits": 2, "query": "{ value @skip(if: false) @include(if: true) @skip(if: false) }"}), json!({"query": "{ __type(name: 5) { name } }"}), json!({"query": "{ __type(name: \"Nope\") { fields { name } } __schema { types { name } } }"}),
     ].into_iter()
 }
